@@ -66,3 +66,36 @@ Proof.
   split; [apply cascade_not_dubious; exact Hc|]. apply (cascade_not_counted_within h nodes _ ns); [|exact Hc].
   cbn [assoc]. rewrite N.eqb_refl. reflexivity.
 Qed.
+
+(* C05, the quorum gate: a replica that did not answer the manager's ping - refused, timed out or answered with a "dubious"
+   error, whatever its own health record says - contributes nothing to the count of alive replicas in the published list *)
+Lemma unreachable_not_counted_within h nodes cs ns :
+  assoc h cs = Some ns -> ns_ping_ok ns = false ->
+  count_alive_ha_slaves_within (h :: nodes) cs = count_alive_ha_slaves_within nodes cs.
+Proof.
+  intros Ha Hp. unfold count_alive_ha_slaves_within. cbn [filter]. rewrite Ha, Hp. reflexivity.
+Qed.
+(* ... nor does a host the manager has no state for, or one without a replication channel (a master) *)
+Lemma unknown_not_counted_within h nodes cs :
+  assoc h cs = None -> count_alive_ha_slaves_within (h :: nodes) cs = count_alive_ha_slaves_within nodes cs.
+Proof. intros Ha. unfold count_alive_ha_slaves_within. cbn [filter]. rewrite Ha. reflexivity. Qed.
+Lemma channelless_not_counted_within h nodes cs ns :
+  assoc h cs = Some ns -> ns_slave ns = None ->
+  count_alive_ha_slaves_within (h :: nodes) cs = count_alive_ha_slaves_within nodes cs.
+Proof.
+  intros Ha Hs. unfold count_alive_ha_slaves_within. cbn [filter]. rewrite Ha, Hs. rewrite andb_false_r. reflexivity.
+Qed.
+(* the count never exceeds the length of the list *)
+Lemma filter_len_le {A} (f : A -> bool) (l : list A) : (length (filter f l) <= length l)%nat.
+Proof. induction l as [|a l IH]; cbn [filter length]; [lia|]. destruct (f a); cbn [length]; lia. Qed.
+Lemma count_within_le nodes cs : (0 <= count_alive_ha_slaves_within nodes cs <= Z.of_nat (length nodes))%Z.
+Proof.
+  unfold count_alive_ha_slaves_within.
+  match goal with |- context [filter ?f nodes] => pose proof (filter_len_le f nodes) end. lia.
+Qed.
+Lemma unknown_or_channelless_not_counted h nodes cs :
+  (assoc h cs = None \/ exists ns, assoc h cs = Some ns /\ ns_slave ns = None) ->
+  count_alive_ha_slaves_within (h :: nodes) cs = count_alive_ha_slaves_within nodes cs.
+Proof.
+  intros [H | [ns [H1 H2]]]; [exact (unknown_not_counted_within h nodes cs H) | exact (channelless_not_counted_within h nodes cs ns H1 H2)].
+Qed.
